@@ -22,7 +22,8 @@ type ModeReach struct {
 	Blocks map[*ssa.Function]map[*ssa.BasicBlock]bool
 	P      *Prog
 	M      *Model
-	// production: blocks guarded by the testing/debug-only dump are excluded
+	// Production: blocks guarded by the testing/debug-only dump are excluded
+	Production bool
 }
 
 func feasibleBlocks(fn *ssa.Function, mode Mode, prune func(*ssa.BasicBlock) []*ssa.BasicBlock) map[*ssa.BasicBlock]bool {
@@ -81,7 +82,7 @@ func productionSuccs(mode Mode) func(b *ssa.BasicBlock) []*ssa.BasicBlock {
 
 // NewModeReach explores from the roots (session entries) through static calls, closures and the package's own dynamic targets.
 func NewModeReach(p *Prog, m *Model, mode Mode, roots []*ssa.Function, production bool) *ModeReach {
-	mr := &ModeReach{Mode: mode, Blocks: map[*ssa.Function]map[*ssa.BasicBlock]bool{}, P: p, M: m}
+	mr := &ModeReach{Mode: mode, Blocks: map[*ssa.Function]map[*ssa.BasicBlock]bool{}, P: p, M: m, Production: production}
 	var prune func(*ssa.BasicBlock) []*ssa.BasicBlock
 	if production {
 		prune = productionSuccs(mode)
@@ -340,8 +341,10 @@ func (ra *rawAnalysis) classifyCall(call *ssa.Call, fn *ssa.Function, out map[st
 			} else {
 				out["value"] = true
 			}
-		case "MarshalJSON", "MarshalText":
+		case "MarshalJSON":
 			out["marshaller"] = true
+		case "MarshalText":
+			out["text-marshaller"] = true
 		default:
 			out["unknown"] = true
 		}
